@@ -315,8 +315,11 @@ func runC06(c *core.Ctx) {
 			ok = len(g) > 0 && len(an.Ungated(an.CutSpec{Fn: fsnap, GateEdge: g, Sink: func(in ssa.Instruction) bool { return in == ci }})) == 0
 			// Cancel deferred before the checkpoint
 			h := an.Ungated(an.CutSpec{Fn: fsnap,
-				GateInstr: func(in ssa.Instruction) bool { d, isD := in.(*ssa.Defer); return isD && an.IsCall(d, "snapshot.WALWriter.Cancel") },
-				Sink:      func(in ssa.Instruction) bool { return in == cp.(ssa.Instruction) }})
+				GateInstr: func(in ssa.Instruction) bool {
+					d, isD := in.(*ssa.Defer)
+					return isD && an.IsCall(d, "snapshot.WALWriter.Cancel")
+				},
+				Sink: func(in ssa.Instruction) bool { return in == cp.(ssa.Instruction) }})
 			ok = ok && len(h) == 0
 		}
 		c.Result(ok, "C06.c", "PAIR", "fsmSnapshot:segment-valid-only-after-checkpoint", c.P.Pos(fsnap.Pos()),
